@@ -276,7 +276,7 @@ impl<'u, 'de> serde::Deserializer<'de> for &'u mut URLEncodedDeserializer<'de> {
             assert!(self.side == ParsingSide::Value);
         }
 
-        match self.next_section()? {
+        match &*percent_decode(self.next_section()?) {
             b"true"  => visitor.visit_bool(true),
             b"false" => visitor.visit_bool(false),
             other   => Err(serde::de::Error::custom(format!(
@@ -293,7 +293,7 @@ impl<'u, 'de> serde::Deserializer<'de> for &'u mut URLEncodedDeserializer<'de> {
         }
 
         let section = self.next_section()?;
-        let section = std::str::from_utf8(section)
+        let section = percent_decode_utf8(section)
             .map_err(|_| serde::de::Error::custom(
                 format!("Expected a number, but got `{}`", section.escape_ascii())
             ))?;
@@ -310,7 +310,7 @@ impl<'u, 'de> serde::Deserializer<'de> for &'u mut URLEncodedDeserializer<'de> {
         }
 
         let section = self.next_section()?;
-        let section = std::str::from_utf8(section)
+        let section = percent_decode_utf8(section)
             .map_err(|_| serde::de::Error::custom(
                 format!("Expected a number, but got `{}`", section.escape_ascii())
             ))?;
@@ -328,7 +328,7 @@ impl<'u, 'de> serde::Deserializer<'de> for &'u mut URLEncodedDeserializer<'de> {
         }
 
         let section = self.next_section()?;
-        let section = std::str::from_utf8(section)
+        let section = percent_decode_utf8(section)
             .map_err(|_| serde::de::Error::custom(
                 format!("Expected an integer, but got `{}`", section.escape_ascii())
             ))?;
@@ -345,7 +345,7 @@ impl<'u, 'de> serde::Deserializer<'de> for &'u mut URLEncodedDeserializer<'de> {
         }
 
         let section = self.next_section()?;
-        let section = std::str::from_utf8(section)
+        let section = percent_decode_utf8(section)
             .map_err(|_| serde::de::Error::custom(
                 format!("Expected an integer, but got `{}`", section.escape_ascii())
             ))?;
@@ -362,7 +362,7 @@ impl<'u, 'de> serde::Deserializer<'de> for &'u mut URLEncodedDeserializer<'de> {
         }
 
         let section = self.next_section()?;
-        let section = std::str::from_utf8(section)
+        let section = percent_decode_utf8(section)
             .map_err(|_| serde::de::Error::custom(
                 format!("Expected an integer, but got `{}`", section.escape_ascii())
             ))?;
@@ -379,7 +379,7 @@ impl<'u, 'de> serde::Deserializer<'de> for &'u mut URLEncodedDeserializer<'de> {
         }
 
         let section = self.next_section()?;
-        let section = std::str::from_utf8(section)
+        let section = percent_decode_utf8(section)
             .map_err(|_| serde::de::Error::custom(
                 format!("Expected an integer, but got `{}`", section.escape_ascii())
             ))?;
@@ -397,7 +397,7 @@ impl<'u, 'de> serde::Deserializer<'de> for &'u mut URLEncodedDeserializer<'de> {
         }
 
         let section = self.next_section()?;
-        let section = std::str::from_utf8(section)
+        let section = percent_decode_utf8(section)
             .map_err(|_| serde::de::Error::custom(
                 format!("Expected an integer, but got `{}`", section.escape_ascii())
             ))?;
@@ -414,7 +414,7 @@ impl<'u, 'de> serde::Deserializer<'de> for &'u mut URLEncodedDeserializer<'de> {
         }
 
         let section = self.next_section()?;
-        let section = std::str::from_utf8(section)
+        let section = percent_decode_utf8(section)
             .map_err(|_| serde::de::Error::custom(
                 format!("Expected an integer, but got `{}`", section.escape_ascii())
             ))?;
@@ -431,7 +431,7 @@ impl<'u, 'de> serde::Deserializer<'de> for &'u mut URLEncodedDeserializer<'de> {
         }
 
         let section = self.next_section()?;
-        let section = std::str::from_utf8(section)
+        let section = percent_decode_utf8(section)
             .map_err(|_| serde::de::Error::custom(
                 format!("Expected an integer, but got `{}`", section.escape_ascii())
             ))?;
@@ -448,7 +448,7 @@ impl<'u, 'de> serde::Deserializer<'de> for &'u mut URLEncodedDeserializer<'de> {
         }
 
         let section = self.next_section()?;
-        let section = std::str::from_utf8(section)
+        let section = percent_decode_utf8(section)
             .map_err(|_| serde::de::Error::custom(
                 format!("Expected an integer, but got `{}`", section.escape_ascii())
             ))?;
